@@ -163,6 +163,7 @@ func jsonEq(a, b []byte) bool {
 var tagGrammar = []string{
 	"default", "worker", "a", "my target", "x/y", "poll", "http",
 	"poll://g", "poll://g/id", "poll://g/a/b", "poll://g/", "poll:///x", "poll://", "poll://G/ID?x=1", "poll://g/id%2Fz",
+	"poll://orders:2/w", "poll://g:80", "poll://g:80/id", "poll://user@g/id", "poll://g.example/w:1",
 	"http://h", "http://h:8080/p?q=1#f", "https://h/p", "HTTP://H/P", "http://", "http://[::1]:80/x", "http://h/a b",
 	"ftp://x", "mailto:x@y", "://", "::", "%zz", "http://%zz", "file:///etc/passwd", "urn:x", "sqs://q",
 	`{"type":"poll","data":{"group":"g","id":"w"}}`, `{"type":"http","data":{"url":"http://h/x","headers":{"a":"b"}}}`,
@@ -345,7 +346,7 @@ func runCase(r *rand.Rand, met *metrics.Metrics, rep *vh.Report) *caseOut {
 		rep.Hit("sender.undeliverable")
 		// unknown or undeliverable address: a failed hand-off (the dispatch cycle retries it), nothing sent
 		if len(got) != 0 {
-			out.violate("C19", "sender:misdirected", fmt.Sprintf("recv %s resolves to nothing deliverable (%s) but a message went to %s with data %s", tk.Recv, want.why, got[0].plugin, got[0].data))
+			out.violate(pollProps(string(tk.Recv)), "sender:misdirected", fmt.Sprintf("recv %s resolves to nothing deliverable (%s) but a message went to %s with data %s", tk.Recv, want.why, got[0].plugin, got[0].data))
 		}
 		if cqe.Error == nil && cqe.Completion != nil && cqe.Completion.Sender != nil && cqe.Completion.Sender.Success {
 			out.violate("C19", "sender:lost-message-reported-delivered", fmt.Sprintf("recv %s cannot be delivered but the hand-off was reported successful", tk.Recv))
@@ -354,12 +355,12 @@ func runCase(r *rand.Rand, met *metrics.Metrics, rep *vh.Report) *caseOut {
 	}
 	rep.Hit("sender.deliverable." + want.plugin)
 	if len(got) != 1 {
-		out.violate("C19", "sender:not-sent", fmt.Sprintf("recv %s resolves to %s %s but %d messages were handed to transports", tk.Recv, want.plugin, want.data, len(got)))
+		out.violate(pollProps(string(tk.Recv)), "sender:not-sent", fmt.Sprintf("recv %s resolves to %s %s but %d messages were handed to transports", tk.Recv, want.plugin, want.data, len(got)))
 		return out
 	}
 	g := got[0]
 	if g.plugin != want.plugin || !jsonEq(g.data, want.data) {
-		out.violate("C19", "sender:address-differs", fmt.Sprintf("recv %s (targets %v): handed to %s with data %s, the rule says %s with %s", tk.Recv, keysOf(targets), g.plugin, g.data, want.plugin, want.data))
+		out.violate(pollProps(string(tk.Recv)), "sender:address-differs", fmt.Sprintf("recv %s (targets %v): handed to %s with data %s, the rule says %s with %s", tk.Recv, keysOf(targets), g.plugin, g.data, want.plugin, want.data))
 	}
 	// body
 	var body map[string]json.RawMessage
@@ -547,12 +548,12 @@ func runStream(r *rand.Rand, met *metrics.Metrics, rep *vh.Report) *caseOut {
 		want := resolve(sn.tk.Recv, targets)
 		if !(want.ok && (want.plugin == "http" || want.plugin == "poll")) {
 			if sn.to != sn.from {
-				out.violate("C19", "sender:misdirected", fmt.Sprintf("recv %s resolves to nothing deliverable but a message was handed to a transport", sn.tk.Recv))
+				out.violate(pollProps(string(sn.tk.Recv)), "sender:misdirected", fmt.Sprintf("recv %s resolves to nothing deliverable but a message was handed to a transport", sn.tk.Recv))
 			}
 			continue
 		}
 		if sn.to-sn.from != 1 {
-			out.violate("C19", "sender:not-sent", fmt.Sprintf("recv %s resolves to %s %s but %d messages were handed to transports", sn.tk.Recv, want.plugin, want.data, sn.to-sn.from))
+			out.violate(pollProps(string(sn.tk.Recv)), "sender:not-sent", fmt.Sprintf("recv %s resolves to %s %s but %d messages were handed to transports", sn.tk.Recv, want.plugin, want.data, sn.to-sn.from))
 			continue
 		}
 		g := got[sn.from]
@@ -562,7 +563,7 @@ func runStream(r *rand.Rand, met *metrics.Metrics, rep *vh.Report) *caseOut {
 			continue
 		}
 		if g.plugin != want.plugin || !jsonEq(g.data, want.data) {
-			out.violate("C19", "sender:address-differs", fmt.Sprintf("recv %s (targets %v): handed to %s with data %s, the rule says %s with %s", sn.tk.Recv, keysOf(targets), g.plugin, g.data, want.plugin, want.data))
+			out.violate(pollProps(string(sn.tk.Recv)), "sender:address-differs", fmt.Sprintf("recv %s (targets %v): handed to %s with data %s, the rule says %s with %s", sn.tk.Recv, keysOf(targets), g.plugin, g.data, want.plugin, want.data))
 		}
 		var body struct {
 			Task struct {
@@ -574,6 +575,14 @@ func runStream(r *rand.Rand, met *metrics.Metrics, rep *vh.Report) *caseOut {
 		}
 	}
 	return out
+}
+
+// pollProps: a wrongly resolved poll address is also a failure of the poll transport's addressing (C18)
+func pollProps(recv string) string {
+	if strings.Contains(recv, "poll") {
+		return "C19,C18"
+	}
+	return "C19"
 }
 
 func keysOf(m map[string]*receiver.Recv) []string {
